@@ -42,6 +42,8 @@ def serial_rows(idx, method, members=2, collect=False):
     def run(interp, call, recv, args, kwargs):
         interp.record_call("run", recv.name)
         interp.record_call("run-args", (recv.name, dict(kwargs)))
+        # whatever the run keeps as unmatched lines is there from now on, also when the run ends with an exception
+        interp.store[f"{recv.name}.unmatched"] = Obj(f"UNM:{recv.name}")
         if interp.choose(f"run({recv.name}) raises", [False, True], memo=False):
             raise Raised("ValueError")
         return [Residual(f"{recv.name}.L0")] if runcall == "next" else None
@@ -55,6 +57,12 @@ def serial_rows(idx, method, members=2, collect=False):
         if interp.choose("handler re-raises", [False, True], memo=False):
             raise Raised("MatchException")
 
+    def save(interp, call, recv, args, kwargs):
+        res = args[0] if args else None
+        interp.record_call("save", res)
+        if isinstance(res, Obj):
+            interp.record_call("saved-unmatched", (res.name, interp.store.get(f"{res.name}.unmatched")))
+
     handlers = {
         "self.paths_manager.get_named_paths": lambda i, c, r, a, k: [f"p{j}" for j in range(members)],
         "self.file_manager.get_named_file": lambda i, c, r, a, k: "file.csv",
@@ -63,7 +71,7 @@ def serial_rows(idx, method, members=2, collect=False):
         "self.run_time_str": _rec("run_time_str", ret="RUNDIR"),
         "self.results_manager.start_run": _rec("start_run", keep_kwargs=True),
         "self.results_manager.add_named_result": _rec("add_named_result"),
-        "self.results_manager.save": _rec("save"),
+        "self.results_manager.save": save,
         "self.results_manager.complete_run": _rec("complete_run", keep_kwargs=True),
         "self.csvpath": new_csvpath,
         "Result": new_result,
